@@ -6,6 +6,7 @@ import sys
 
 VERIF = os.path.dirname(os.path.dirname(os.path.abspath(__file__)))
 MISS = {
+    "C12-r3-1": "missed when the batch ran: the graph schema then made every alternative of the repeating choice ambiguous, so DisambiguateChoices replaced the choices whose metadata carried the id; schema corrected afterwards (the check catches it: see DESIGN 10.5)",
     "C10-r1-2": "missed by the quick tier when run; the check now has a document with an object nested below a best-match object (doc holdernest)",
 }
 res = {}
